@@ -1,5 +1,5 @@
-(* Codec/Totality.v — C04 core: in the Release profile (wrapping arithmetic) the streaming decoder
-   model never reaches a Panic, for every input bit string; termination is by construction
+(* Codec/Totality.v — C04 core: the streaming decoder model (whose arithmetic is explicitly wrapping
+   in the repaired code, identical in debug and release builds) never reaches a Panic, for every input bit string; termination is by construction
    (structural recursion; the stream loop has explicit fuel that cannot run out, proved below). *)
 From FlacCodec Require Import Parser_proofs Stream.
 From FlacBase Require Import Crc.
@@ -18,19 +18,18 @@ Lemma bind_np {A B} (x : res A) (f : A -> res B) :
   is_panic x = false -> (forall a, is_panic (f a) = false) -> is_panic (bind x f) = false.
 Proof. destruct x; cbn; auto. Qed.
 
-Lemma dot_p_release : forall xs cs acc, is_panic (dot_p Release xs cs acc) = false.
+Lemma dot_p_release : forall xs cs acc, is_panic (dot_p xs cs acc) = false.
 Proof.
   induction xs as [|x xs IH]; intros [|c cs] acc; cbn [dot_p]; try reflexivity.
   apply bind_np; [apply arith_s_release|]. intros t. apply bind_np; [apply arith_s_release|]. intros a. apply IH.
 Qed.
 
 Lemma predict_release w coeffs shift : forall todo done_rev,
-  is_panic (predict Release w coeffs shift done_rev todo) = false.
+  is_panic (predict w coeffs shift done_rev todo) = false.
 Proof.
   induction todo as [|r rest IH]; intros done_rev; cbn [predict]; [reflexivity|].
   apply bind_np; [apply dot_p_release|]. intros s.
-  apply bind_np; [apply shr_s_release|]. intros sh.
-  apply bind_np; [apply arith_s_release|]. intros v. apply IH.
+  apply bind_np; [apply shr_s_release|]. intros sh. apply IH.
 Qed.
 
 Lemma no_panic_part_header m : no_panic (p_part_header m).
@@ -42,7 +41,8 @@ Qed.
 Lemma no_panic_rice k : no_panic (p_rice k).
 Proof.
   unfold p_rice. apply no_panic_bind; [apply no_panic_unary|]. intros msb.
-  apply no_panic_bind; [apply no_panic_rd|]. intros lsb. apply no_panic_ret.
+  apply no_panic_bind; [apply no_panic_rd|]. intros lsb.
+  apply no_panic_bind; [apply no_panic_guard|]. intros _. apply no_panic_ret.
 Qed.
 Lemma no_panic_partition h n : no_panic (p_partition h n).
 Proof.
@@ -87,7 +87,7 @@ Proof. unfold p_qlp_precision. apply no_panic_bind; [apply no_panic_rd|]. intros
 Lemma no_panic_qlp_shift : no_panic p_qlp_shift.
 Proof. unfold p_qlp_shift. apply no_panic_bind; [apply no_panic_rds|]. intros v. destruct (v <? 0)%Z; [apply no_panic_fail|apply no_panic_ret]. Qed.
 
-Lemma no_panic_dec_subframe w bps n : no_panic (dec_subframe Release w bps n).
+Lemma no_panic_dec_subframe w bps n : no_panic (dec_subframe w bps n).
 Proof.
   unfold dec_subframe. apply no_panic_bind; [apply no_panic_subframe_header|]. intros [ty wasted].
   apply no_panic_bind; [apply no_panic_lift, effective_bps_np|]. intros eb.
@@ -122,12 +122,12 @@ Proof.
   apply bind_np; [apply Hf|]. intros v. apply bind_np; [apply IH|]. reflexivity.
 Qed.
 
-Lemma no_panic_dec_subframes h : no_panic (dec_subframes Release h).
+Lemma no_panic_dec_subframes h : no_panic (dec_subframes h).
 Proof.
   unfold dec_subframes.
   destruct (h_assign h <? 8); [apply no_panic_repeat, no_panic_dec_subframe|].
-  assert (S32 : forall bps n, no_panic (dec_subframe Release 32 bps n)) by (intros; apply no_panic_dec_subframe).
-  assert (S64 : forall bps n, no_panic (dec_subframe Release 64 bps n)) by (intros; apply no_panic_dec_subframe).
+  assert (S32 : forall bps n, no_panic (dec_subframe 32 bps n)) by (intros; apply no_panic_dec_subframe).
+  assert (S64 : forall bps n, no_panic (dec_subframe 64 bps n)) by (intros; apply no_panic_dec_subframe).
   destruct (h_bps h <? 32).
   - destruct (h_assign h =? 8); [|destruct (h_assign h =? 9)].
     + apply no_panic_bind; [apply S32|]. intros l. apply no_panic_bind; [apply S32|]. intros s.
@@ -139,7 +139,7 @@ Proof.
     + apply no_panic_bind; [apply S32|]. intros m. apply no_panic_bind; [apply S32|]. intros s.
       apply no_panic_bind; [|intros; apply no_panic_ret].
       apply no_panic_lift, map2_res2_np. intros x y.
-      apply bind_np; [apply arith_s_release|]. intros m2. apply bind_np; [apply abs_s_release|]. intros ab.
+      apply bind_np; [apply arith_s_release|]. intros m2.
       apply bind_np; [apply arith_s_release|]. intros sum. apply bind_np; [apply arith_s_release|]. intros a1.
       apply bind_np; [apply arith_s_release|]. reflexivity.
   - destruct (h_assign h =? 8); [|destruct (h_assign h =? 9)].
@@ -152,7 +152,7 @@ Proof.
     + apply no_panic_bind; [apply S32|]. intros m. apply no_panic_bind; [apply S64|]. intros s.
       apply no_panic_bind; [|intros; apply no_panic_ret].
       apply no_panic_lift, map2_res2_np. intros x y.
-      apply bind_np; [apply arith_s_release|]. intros m2. apply bind_np; [apply abs_s_release|]. intros ab.
+      apply bind_np; [apply arith_s_release|]. intros m2.
       apply bind_np; [apply arith_s_release|]. intros sum. apply bind_np; [apply arith_s_release|]. intros a1.
       apply bind_np; [apply arith_s_release|]. reflexivity.
 Qed.
@@ -181,8 +181,8 @@ Proof.
     destruct (_ =? 13); [apply no_panic_rd|]. apply no_panic_bind; [apply no_panic_rd|]. intros; apply no_panic_ret.
 Qed.
 
-Theorem dec_frame_release_total si chk bytes :
-  (forall h, is_panic (chk h) = false) -> is_panic (dec_frame Release si chk bytes) = false.
+Theorem dec_frame_total si chk bytes :
+  (forall h, is_panic (chk h) = false) -> is_panic (dec_frame si chk bytes) = false.
 Proof.
   intros Hchk. unfold dec_frame.
   pose proof (no_panic_header si (bits_of_bytes bytes)) as Hh.
